@@ -66,7 +66,7 @@ macro_rules! lm_harness {
 }
 
 //@ harness: c11_naddr_time_monotone_d0 c11_naddr_time_monotone_d2
-//@ tier: quick
+//@ tier: thorough
 //@ timeout: 1800
 //@ mem: 16
 //@ unwindset: heed::bytes_=260; heed::Table=6; memcmp.0=80; repeat::Repeat=190; Repeat.*try_fold=190; any_addr=6
@@ -76,6 +76,47 @@ macro_rules! lm_harness {
 //@ assumes: heed model (put/get/commit)
 lm_harness!(c11_naddr_time_monotone_d0, time_monotone(0));
 lm_harness!(c11_naddr_time_monotone_d2, time_monotone(2));
+
+//@ harness: c11_naddr_time_monotone_small
+//@ tier: quick
+//@ timeout: 700
+//@ mem: 16
+//@ unwindset: heed::bytes_=260; heed::Table=6; memcmp.0=80; repeat::Repeat=190; Repeat.*try_fold=190; any_addr=6
+//@ cbmc: --max-field-sensitivity-array-size 300
+//@ encodes: Lmdb::mark_naddr_deleted, Lmdb::when_is_naddr_deleted, Lmdb::key_naddr_index
+//@ bounds: the address (30023, author A, d "x") and two address deletions with ARBITRARY 64-bit times t1, t2 applied in that order (so both arrival orders of an older and a newer request): after the first the reported time is t1, after the second it is max(t1, t2) - the deletion time never moves backwards
+//@ outside: arbitrary addresses (thorough: c11_naddr_time_monotone_d0 / _d2)
+//@ assumes: heed model (put/get/commit)
+lm_harness!(c11_naddr_time_monotone_small, {
+    let l = lmdb();
+    let addr = Addr { kind: Kind::from_u16(30023), author: Pubkey::from_bytes([0x11u8; 32]), d: vec![b'x'] };
+    let t1: u64 = kani::any();
+    let t2: u64 = kani::any();
+    {
+        let mut txn = ok!(l.write_txn());
+        ok!(l.mark_naddr_deleted(&mut txn, &addr, Time::from_u64(t1)));
+        ok!(txn.commit());
+    }
+    let r1 = {
+        let txn = ok!(l.read_txn());
+        ok!(l.when_is_naddr_deleted(&txn, &addr))
+    };
+    assert!(r1 == Some(Time::from_u64(t1)));
+    {
+        let mut txn = ok!(l.write_txn());
+        ok!(l.mark_naddr_deleted(&mut txn, &addr, Time::from_u64(t2)));
+        ok!(txn.commit());
+    }
+    let r2 = {
+        let txn = ok!(l.read_txn());
+        ok!(l.when_is_naddr_deleted(&txn, &addr))
+    };
+    kani::cover!(t2 < t1);
+    let want = if t1 > t2 { t1 } else { t2 };
+    assert!(r2 == Some(Time::from_u64(want)), "deletion time moved backwards");
+    core::mem::forget(addr);
+    core::mem::forget(l);
+});
 
 fn marker_roundtrip(dlen: usize) {
     let l = lmdb();
@@ -122,7 +163,7 @@ fn marker_roundtrip(dlen: usize) {
 }
 
 //@ harness: c11_marker_roundtrip_d0 c11_marker_roundtrip_d2
-//@ tier: quick
+//@ tier: thorough
 //@ timeout: 1800
 //@ mem: 16
 //@ unwindset: heed::bytes_=260; heed::Table=6; memcmp.0=80; repeat::Repeat=190; Repeat.*try_fold=190; any_addr=6; marker_roundtrip=6
